@@ -44,6 +44,11 @@ impl U256 {
     }
 
     pub fn checked_shl(&self, other: &u64) -> Option<U256> {
+        // Shifting a non-zero value by 256 or more bits can never fit; do not materialize
+        // the (arbitrarily large) intermediate result.
+        if *other >= 256 {
+            return self.0.is_zero().then(|| Self(BigUint::ZERO));
+        }
         let r = (&self.0).shl(other);
         (r.bits() <= 256).then_some(Self(r))
     }
@@ -169,4 +174,13 @@ fn to_hex_display_must_always_have_64_chars() {
     let v = U256::from_be_bytes(&[0u8; 32]);
     assert_eq!(format!("{v:x}").len(), 64);
     assert_eq!(format!("{v:X}").len(), 64);
+}
+
+#[test]
+fn checked_shl_by_huge_amount_does_not_allocate() {
+    let one = U256::from(1u64);
+    assert_eq!(one.checked_shl(&255), Some(U256(BigUint::from(1u8) << 255u32)));
+    assert_eq!(one.checked_shl(&256), None);
+    assert_eq!(one.checked_shl(&u64::MAX), None);
+    assert_eq!(U256::from(0u64).checked_shl(&u64::MAX), Some(U256::from(0u64)));
 }
